@@ -494,6 +494,8 @@ package catalog
 //@   keeps directive.Directive, fs.File, core.JApiCore, Catalog
 //@   ghost c.gFailed := ite(result != nil, old(c.gFailed) + 1, old(c.gFailed))
 //@   ensures[C03,@duplicate-enum] forall(k, string, imp(old(has(c.UserEnums.data, k)), has(c.UserEnums.data, k) && c.UserEnums.data[k] == old(c.UserEnums.data[k])))
+//@   ensures[C03,C10,@duplicate-enum-rejected] imp(old(d.namedParameters != nil && has(d.namedParameters, "Name") && has(c.UserEnums.data, d.namedParameters["Name"])),
+//@       result != nil && result.File == d.keywordCoords.file && result.Index == d.keywordCoords.begin)
 //@   ensures imp(result != nil, result.File == d.keywordCoords.file || (d.BodyCoords.file != nil && result.File == d.BodyCoords.file))
 // interaction ids are computed from the directive and its ancestors (walk up the Parent chain): assumed pure
 //@ func newHTTPInteractionID(d)
